@@ -130,6 +130,8 @@ class Ctx:
         self.cov["transitions"] += st["transitions"]
         if count_traces:
             self.cov["traces_validated_against_impl"] += len(cases)
+        for d in st.get("drift", []):
+            self.note_drift(str(d[1]), {"module": module, "tid": d[0], "pos": d[2:]})
         self.cov["judge_runs"].append({"module": module, "cases": len(cases),
                                        "states": st["states"],
                                        "wall_s": round(st["wall_s"], 2)})
